@@ -1870,6 +1870,27 @@ func FunExpr(query *Query, current Map, expr *sqlparser.FuncExpr, opts ...ExprOp
 		}
 	default:
 		{
+			// IF evaluates the branch its condition picks, not the other one:
+			// IF(n > 2, ELEMENTAT(tags, 2), 'none') guards the call it guards
+			if name == "if" && len(execType) == 0 && len(expr.Exprs) == 3 {
+				condition, e := FuncArgReader(query, current, expr.Exprs[:1])
+				if e != nil {
+					return nil, e
+				}
+				picked, e := AsType[bool](condition[0])
+				if e != nil {
+					return nil, e
+				}
+				branch := expr.Exprs[2]
+				if picked != nil && *picked {
+					branch = expr.Exprs[1]
+				}
+				value, e := FuncArgReader(query, current, []sqlparser.Expr{branch})
+				if e != nil {
+					return nil, e
+				}
+				return function(query, current, nil, []any{condition[0], value[0], value[0]})
+			}
 			slice, e := FuncArgReader(query, current, expr.Exprs)
 			if e != nil {
 				return nil, e
